@@ -32,7 +32,7 @@ func (w *WeightedSumBiasListener) Spec_OnCriterionAdded(
 	generator utils.ValueGenerator,
 ) model.AddedCriterionParams {
 	wParams := params.(weightedSumParams)
-	leastImportantParam := wParams.Criterion(referenceCriterion.Identifier())
+	leastImportantParam := wParams.Spec_Criterion(referenceCriterion.Spec_Identifier())
 	newCriterionWeight := generator() * leastImportantParam.Weight
 	newCriterion := model.WeightedCriteria{{
 		Criterion: *criterion,
@@ -48,16 +48,16 @@ func (w *WeightedSumBiasListener) Spec_OnCriteriaRemoved(leftCriteria *model.Cri
 	wParams := params.(weightedSumParams)
 	result := make(model.WeightedCriteria, len(*leftCriteria))
 	for i, c := range *leftCriteria {
-		result[i] = wParams.Criterion(c.Id)
+		result[i] = wParams.Spec_Criterion(c.Id)
 	}
 	return weightedSumParams{weightedCriteria: &result}
 }
 
 func (w *WeightedSumBiasListener) Spec_RankCriteriaAscending(params *model.DecisionMakingParams) *model.WeightedCriteria {
 	wParams := params.MethodParameters.(weightedSumParams)
-	weights := model.PrepareCumulatedWeightsMap(params, func(criterion string, value model.Weight) model.Weight {
-		cryt := wParams.Criterion(criterion)
+	weights := model.Spec_PrepareCumulatedWeightsMap(params, func(criterion string, value model.Weight) model.Weight {
+		cryt := wParams.Spec_Criterion(criterion)
 		return cryt.Weight * value
 	})
-	return params.Criteria.SortByWeights(*weights)
+	return params.Criteria.Spec_SortByWeights(*weights)
 }
